@@ -36,6 +36,9 @@ type boxCell struct {
 	v    value // deep copy of the marshalled value
 }
 
+// fallthroughSSA is returned by an intrinsic that declines (concrete arguments): the SSA body is interpreted instead.
+type fallthroughSSA struct{}
+
 // unsupported is raised (as a Go panic) when the engine cannot model something.
 type unsupported struct{ msg string }
 
